@@ -1,7 +1,7 @@
 ----------------------------- MODULE MC_Fees_c -----------------------------
 (* CLASS COVER of the boundary values of the distribution parameters.  A scripted, fully enumerated family of          *)
 (* behaviours (TLC breadth-first, no VIEW: every behaviour is a state):                                                 *)
-(*   Setup(world, tax)  FeeIncome(f1)  Block({dist})  UpdateParams(tax2, reward2)  FeeIncome(100)  Block({dist, mint})  *)
+(*   Setup(world, tax)  FeeIncome(f1)  Block({dist})  UpdateParams(tax2, reward2)  FeeIncome(100)  UpdateParamsDropped(tax3, reward3)  Block({dist, mint}) *)
 (* for every world in c_WORLDS (0 / 1 / 3 validators, commission 0 / mid / 1), tax in TAXES (0, small, 1), f1 in FEES   *)
 (* (1 unit, an amount that leaves remainders, a larger one) and every tax2 # tax.  The invariants are checked on every  *)
 (* one of them, and every complete behaviour is printed for replay on the real code.                                    *)
@@ -18,6 +18,7 @@ c_PWS    == {w[1] : w \in c_WORLDS}
 c_RATES  == {w[2] : w \in c_WORLDS}
 c_IDPAIRS == {<<"ea", "eb">>}
 REWARD2 == 7
+REWARD3 == 3
 
 CoverNext ==
   \/ \E w \in c_WORLDS, tax \in TAXES : Setup(w[1], w[2], tax, 5, <<"ea", "eb">>, 0)
@@ -32,7 +33,11 @@ CoverNext ==
           /\ nup' = nup + 1 /\ UNCHANGED <<dels, nep>>
   \/ /\ Len(hist) = 4
      /\ Do("FeeIncome", [x |-> 100, path |-> "bank"]) /\ UNCHANGED <<env, dels, nep, nup>>
-  \/ /\ Len(hist) = 5
+  \/ /\ Len(hist) = 5      \* a parameter update on a branch of state that is discarded: the configured values stay
+     /\ \E tax \in TAXES \ {env.tax} :
+          /\ Do("UpdateParamsDropped", [tax |-> tax, reward |-> REWARD3])
+          /\ nup' = nup + 1 /\ UNCHANGED <<env, dels, nep>>
+  \/ /\ Len(hist) = 6
      /\ Do("Block", [ended |-> {env.distId, env.mintId}]) /\ nep' = nep + 1 /\ UNCHANGED <<env, dels, nup>>
 
 CoverSpec == Init /\ [][CoverNext]_vars
